@@ -1310,6 +1310,15 @@ int main(int argc, char **argv)
         FnEmitter P3(C, F);
         cleanprotos << P3.proto() << ";\n";
       }
+      {
+        // stable type names for harness stubs of this external: <cname>_ret_t, <cname>_argK_t
+        std::string cn2 = C.gname(&F);
+        if (!F.getReturnType()->isVoidTy())
+          protos << "typedef " << C.ty(F.getReturnType()) << " " << cn2 << "_ret_t;\n";
+        unsigned k2 = 0;
+        for (Argument &A : F.args())
+          protos << "typedef " << C.ty(A.getType()) << " " << cn2 << "_arg" << k2++ << "_t;\n";
+      }
       protos << "/* external: " << dn << " */\n" << E.proto();
       if (ct)
         for (auto &c : ct->clauses)
@@ -1369,7 +1378,11 @@ int main(int argc, char **argv)
   o << "/* generated by ir2c from " << inpath << " */\n";
   o << "#include \"vf_rt.h\"\n";
   for (unsigned w : C.oddw)
-    th << "typedef unsigned __CPROVER_bitvector[" << w << "] u" << w << "; typedef signed __CPROVER_bitvector[" << w << "] i" << w << ";\n";
+  {
+    th << "#ifndef VF_NATIVE\ntypedef unsigned __CPROVER_bitvector[" << w << "] u" << w << "; typedef signed __CPROVER_bitvector[" << w << "] i" << w << ";\n#else\n";
+    const char *nt = w <= 8 ? "char" : w <= 16 ? "short" : w <= 32 ? "int" : "long";
+    th << "typedef unsigned " << nt << " u" << w << "; typedef signed " << nt << " i" << w << "; /* native replay only: odd-width SROA temporaries never cross the shim ABI */\n#endif\n";
+  }
   for (auto &s : C.typedefs_fwd)
     if (s.rfind("/*fn*/", 0) != 0)
       th << s << "\n";
